@@ -676,6 +676,20 @@ func assertStepAt(api frontend.API, out []frontend.Variable, i int, stepPosition
 }
 ''')])
 save('benign-loopmust-helper','C14','std/selector/slice.go','the step-shape loop of stepMask moved into a helper, its body into a second helper')
+m('mulaccown-dot','C14',['MULACC-OWN'],'std/selector/multiplexer.go','''	out := frontend.Variable(0)
+	for i := 0; i < len(a); i++ {
+		// out += indicators[i] * values[i]
+		out = api.MulAcc(out, a[i], b[i])
+	}
+	return out''','''	if len(b) == 0 {
+		return 0
+	}
+	// start from the last value and correct it: out = b[n-1] + sum a[i]*(b[i]-b[n-1])
+	out := b[len(b)-1]
+	for i := 0; i < len(a)-1; i++ {
+		out = api.MulAcc(out, a[i], api.Sub(b[i], b[len(b)-1]))
+	}
+	return out''',note='the accumulator of MulAcc starts as the caller's own variable')
 json.dump({'comment':'selftest mutants: each patch breaks one rule instance and must be detected by the listed rule(s) of its property; produced by tools/make_selftest.py','mutants':M}, open(os.path.join(root,'selftest','mutants.json'),'w'), indent=1)
 subprocess.run(['git','-C','/repo','worktree','remove','--force',WT],capture_output=True)
 print(len(M),'mutants')
